@@ -49,15 +49,9 @@ class Ring:
         return Poly({(('I', 1),): F(1)}, self)
 
     def exp(self, arg):
-        """exp of a Poly argument (Rat arguments become atoms of their text)."""
-        if isinstance(arg, Rat):
-            if arg.den.is_const():
-                arg = arg.num * (F(1) / arg.den.const_value())
-            else:
-                name = 'exp(%s)' % arg.key()
-                self.real[name] = False
-                self.exparg[name] = None
-                return Poly({((name, 1),): F(1)}, self)
+        """exp of a Poly/Rat argument; the stored argument is always a Rat."""
+        if isinstance(arg, Poly):
+            arg = Rat(arg)
         if arg.is_zero():
             return self.const(1)
         name = 'exp(%s)' % arg.key()
@@ -341,7 +335,7 @@ def _resubst_atom(a, mapping, R):
     """Substitute inside function-atoms (exp/sqrt/sin/cos/uninterpreted)."""
     if a == 'I':
         return R.I
-    if a in R.exparg and R.exparg[a] is not None:
+    if a in R.exparg:
         return R.exp(R.exparg[a].subs(mapping))
     info = R.info.get(a)
     if info:
@@ -362,10 +356,7 @@ def _conj_atom(a, R):
     if a == 'I':
         return -R.I
     if a in R.exparg:
-        arg = R.exparg[a]
-        if arg is None:
-            raise NormError('conj of exp with rational argument')
-        return R.exp(arg.conj())
+        return R.exp(R.exparg[a].conj())
     if R.real.get(a, True):
         return Poly({((a, 1),): F(1)}, R)
     info = R.info.get(a)
@@ -397,9 +388,9 @@ def _mulmono(m1, m2, R):
         if e:
             d['I'] = 1
     # exp merge
-    exps = [a for a in d if a in R.exparg and R.exparg[a] is not None]
+    exps = [a for a in d if a in R.exparg]
     if exps and (len(exps) > 1 or d[exps[0]] != 1):
-        arg = R.const(0)
+        arg = Rat(R.const(0))
         for a in exps:
             arg = arg + R.exparg[a] * d.pop(a)
         if not arg.is_zero():
@@ -632,7 +623,7 @@ def _datom(a, var, R):
         return None
     if a in R.deriv and var in R.deriv[a]:
         return _rat(R.deriv[a][var])
-    if a in R.exparg and R.exparg[a] is not None:
+    if a in R.exparg:
         d = diff(R.exparg[a], var, R)
         if d.is_zero():
             return None
